@@ -27,6 +27,24 @@ for _m in (tad, reverse_dfs, conditionalrewards, roberta_generator, stochastic_g
 logging.getLogger().addHandler(logging.NullHandler())    # so that logging.info() never installs a stream handler via basicConfig()
 logging.disable(logging.CRITICAL)       # the library logs through the root logger; output is never an observation
 
+import contextlib                               # noqa: E402
+
+
+@contextlib.contextmanager
+def debug_logging():
+    """the tool's '-l d' configuration: root logger at DEBUG and nothing disabled, records swallowed by the NullHandler; a
+    configuration that must not change any result"""
+    root = logging.getLogger()
+    old = root.level
+    logging.disable(logging.NOTSET)
+    root.setLevel(logging.DEBUG)
+    try:
+        yield
+    finally:
+        root.setLevel(old)
+        logging.disable(logging.CRITICAL)
+
+
 P1, P2, PR = "Player 1", "Player 2", "Probabilistic"
 NOSOL = "The game has no solution. The initial state has a reach probability of 0."
 
